@@ -263,6 +263,9 @@ func main() {
 		}
 	}
 
+	// 8. gov EndBlocker: every call whose error is returned (an error returned by an end blocker halts the chain)
+	govHalts := govHalting(filepath.Join(repo, "x/gov/abci.go"))
+
 	// 5. the tail of gov Tally: divisions and early-return guards in source order
 	tallySteps, loopDivs := tallyTail(filepath.Join(repo, "x/gov/keeper/tally.go"))
 
@@ -295,6 +298,7 @@ func main() {
 	}
 	sb.WriteString("Definition gen_panic_sites : list (string * string) :=\n  [" + strings.Join(ss, ";\n   ") + "].\n")
 	sb.WriteString("Definition gen_oset_writers : list (string * string) :=\n  [" + strings.Join(writers, ";\n   ") + "].\n")
+	sb.WriteString("Definition gen_gov_halting_calls : list (string * string) :=\n  [" + strings.Join(govHalts, ";\n   ") + "].\n")
 	sb.WriteString("Definition gen_oset_conditions : list (string * string) :=\n  [" + strings.Join(conds, ";\n   ") + "].\n")
 	if err := os.WriteFile(filepath.Join(out, "Gen_EndBlock.v"), []byte(sb.String()), 0o644); err != nil {
 		die("%v", err)
@@ -412,4 +416,103 @@ func tallyTail(file string) (steps []string, loopDivs []string) {
 		}
 	}
 	return steps, loopDivs
+}
+
+// govHalting lists, for EndBlocker (its two queue-walk closures separately) and failUnsupportedProposal in x/gov/abci.go,
+// the calls whose error result is handed back to the caller: `x, err := f(...)` / `err = f(...)` / `if err := f(...); …`
+// followed by an `if err != nil { … return …, err }` before any other test of err.
+func govHalting(file string) []string {
+	fset := token.NewFileSet()
+	f, err := parser.ParseFile(fset, file, nil, 0)
+	if err != nil {
+		die("parse %s: %v", file, err)
+	}
+	var out []string
+	callName := func(e ast.Expr) string {
+		c, ok := e.(*ast.CallExpr)
+		if !ok {
+			return ""
+		}
+		return src(fset, c.Fun)
+	}
+	returnsErr := func(b *ast.BlockStmt) bool {
+		for _, st := range b.List {
+			if r, ok := st.(*ast.ReturnStmt); ok && len(r.Results) > 0 {
+				if id, ok := r.Results[len(r.Results)-1].(*ast.Ident); ok && id.Name == "err" {
+					return true
+				}
+			}
+		}
+		return false
+	}
+	isErrTest := func(e ast.Expr) (bool, bool) { // (is a test of err against nil, is `!=`)
+		b, ok := e.(*ast.BinaryExpr)
+		if !ok {
+			return false, false
+		}
+		x, ok1 := b.X.(*ast.Ident)
+		y, ok2 := b.Y.(*ast.Ident)
+		if ok1 && ok2 && x.Name == "err" && y.Name == "nil" {
+			return true, b.Op == token.NEQ
+		}
+		return false, false
+	}
+	var scope func(label string, body *ast.BlockStmt)
+	scope = func(label string, body *ast.BlockStmt) {
+		var pending []string
+		done := map[*ast.AssignStmt]bool{}
+		assign := func(st *ast.AssignStmt) {
+			if done[st] {
+				return
+			}
+			done[st] = true
+			hasErr := false
+			for _, l := range st.Lhs {
+				if id, ok := l.(*ast.Ident); ok && id.Name == "err" {
+					hasErr = true
+				}
+			}
+			if hasErr && len(st.Rhs) == 1 {
+				if n := callName(st.Rhs[0]); n != "" {
+					pending = append(pending, n)
+				}
+			}
+		}
+		ast.Inspect(body, func(n ast.Node) bool {
+			switch st := n.(type) {
+			case *ast.FuncLit:
+				return false // own scope, handled where the enclosing call is seen
+			case *ast.CallExpr:
+				for _, a := range st.Args {
+					if fl, ok := a.(*ast.FuncLit); ok {
+						scope(label+":"+src(fset, st.Fun), fl.Body)
+					}
+				}
+			case *ast.AssignStmt:
+				assign(st)
+			case *ast.IfStmt:
+				if as, ok := st.Init.(*ast.AssignStmt); ok {
+					assign(as)
+				}
+				if is, neq := isErrTest(st.Cond); is {
+					if neq && returnsErr(st.Body) {
+						for _, c := range pending {
+							out = append(out, fmt.Sprintf("(\"%s\", \"%s\")", label, c))
+						}
+					}
+					pending = nil
+				}
+			}
+			return true
+		})
+	}
+	for _, d := range f.Decls {
+		if fd, ok := d.(*ast.FuncDecl); ok && fd.Body != nil && (fd.Name.Name == "EndBlocker" || fd.Name.Name == "failUnsupportedProposal") {
+			scope(fd.Name.Name, fd.Body)
+		}
+	}
+	if len(out) == 0 {
+		die("no error-returning call found in %s", file)
+	}
+	return out
 }
